@@ -26,7 +26,7 @@ RULE = ('all path strings of 1..N segments (quick 3, thorough 4) over {x, ., ..,
         'mode. Non-trivial: the string contains "..", is absolute, or names the sibling; distinct by (kind, string, configuration)')
 ASSUMPTIONS = [
     'existence probes (isfile/stat) are recorded but not judged; only open() is',
-    'load-path patterns that themselves contain ".." are not generated (the user named that directory)',
+    'a load-path pattern that itself contains ".." names the directory it resolves to from the requiring file (the user named it): such patterns appear only in the fixed project layouts of scenario_requires, where the permitted directories are spelled out',
     'a directory link the user placed inside a root counts as part of the root; a path that reaches the OS with `..` components still in it is judged by where the OS resolves it (physically); backslashes are ordinary file-name characters on this platform',
     'in hostile mode an attempted open() of a non-existent outside path counts: only non-existence prevented the read',
 ]
@@ -324,6 +324,10 @@ def run_require(ctx, U, s, lp, hostile, form=None, literal=None, home=None, main
     ctx.feature('load_path:' + lp)
     ctx.feature('hostile' if hostile else 'real_fs')
     ctx.feature('require_rejected' if (err is not None or rcode) else 'require_built')
+    if literal is None and ('..' in s.split('/') or s.startswith('/')) and err is None and not rcode:
+        # the other half of the statement: such strings are refused with an error, wherever they would lead
+        ctx.violation('require("%s") with load path %s (%s fs) was accepted: the build succeeded' % (s, lp, 'hostile' if hostile else 'real'), case)
+        return
     outp = w.outside()
     if outp:
         ctx.violation('require("%s") with load path %s (%s fs) opened %s, outside %s' % (
@@ -369,6 +373,61 @@ def nested_require(ctx, U, hostile):
             ctx.violation('require("only_next_to_main") inside root/sub/nest_pkg.lua (load path %s, %s fs) opened root/only_next_to_main.lua, '
                           'which is neither under the requiring file\'s directory root/sub nor under a load path directory' % (
                               lp, 'hostile' if hostile else 'real'), case)
+            return
+
+
+def scenario_requires(ctx, U, hostile):
+    """Small project layouts in which WHICH file is the requiring file matters: (a) a load path with a pattern relative to the requiring
+    file's parent (`../?.lua`: the user named that directory) - after a package found there has been loaded, the main file's next
+    require() is still the main file's; (b) a package outside the project (found through an absolute entry) requires a name that is
+    not next to it: nothing above it is a place to look."""
+    from pico8 import tool
+    layouts = (
+        ('ancestor_pattern', {'ws/game/main.lua': b'require("local_a")\nrequire("shared")\nrequire("top_secret")\n', 'ws/game/local_a.lua': b'a=1\n',
+                              'ws/shared.lua': b'shared=1\n', 'top_secret.lua': b'marker("top_secret.lua")\n', 'ws/game/sub/deeper.lua': b'd=1\n'},
+         'ws/game/main.lua', '?.lua;../?.lua', ['ws'], ['top_secret.lua']),
+        ('ancestor_pattern_two', {'ws/game/main.lua': b'x=require("shared")\ny=require("other_top")\n', 'ws/shared.lua': b'return 1\n',
+                                  'other_top.lua': b'marker("other_top.lua")\n'},
+         'ws/game/main.lua', '../?.lua;?.lua', ['ws'], ['other_top.lua']),
+        ('package_outside_project', {'ws/game/main.lua': b'net=require("net")\n', 'vendor/p8libs/net.lua': b'c=require("credentials")\n',
+                                     'vendor/credentials.lua': b'marker("vendor/credentials.lua")\n', 'credentials.lua': b'marker("credentials.lua")\n'},
+         'ws/game/main.lua', '?.lua;' + os.path.join(U, 'vendor', 'p8libs', '?.lua'), ['ws/game', 'vendor/p8libs'],
+         ['vendor/credentials.lua', 'credentials.lua']),
+    )
+    for name, files, main_rel, lua_path, roots_rel, canaries in layouts:
+        made = []
+        for rel, data in files.items():
+            pth = os.path.join(U, rel)
+            os.makedirs(os.path.dirname(pth), exist_ok=True)
+            with open(pth, 'wb') as fh:
+                fh.write(data)
+            made.append(pth)
+        main = os.path.join(U, main_rel)
+        out = os.path.join(os.path.dirname(main), 'out_scn.p8')
+        roots = [os.path.join(U, r) for r in roots_rel]
+        case = {'kind': 'scenario', 'string': name, 'load_path': lua_path.replace(U, '$U'), 'hostile': hostile}
+        ctx.case(('scenario', name, hostile), nontrivial=True)
+        try:
+            with fsmon.Watch(U, roots, hostile) as w:
+                try:
+                    tool.main([ambient.vflag(), 'build', out, '--lua', main, '--lua-path', lua_path])
+                except BaseException:
+                    pass
+        finally:
+            for f in made + [out]:
+                if os.path.exists(f):
+                    os.remove(f)
+        ctx.monitor('require_builds')
+        if not any(p == fsmon._norm(main) for p, m in w.events):
+            ctx.inconclusive_because('audit hook did not see the legitimate open of the main file')
+            return
+        ctx.monitor('legitimate_opens_seen')
+        ctx.feature('require_scenario:' + name)
+        outp = w.outside()
+        if outp:
+            ctx.violation('project layout %s (load path %s, %s fs): opened %s, outside the directories of the requiring files and of the load '
+                          'path %s' % (name, case['load_path'], 'hostile' if hostile else 'real', sorted({os.path.relpath(p, U) for p, m in outp}),
+                                       roots_rel), case)
             return
 
 
@@ -486,6 +545,7 @@ def run_shard(spec, ctx):
                 # (e) a package in a sub-directory requires a module that only the MAIN file's directory has: the permitted
                 # directories of a nested require() are those of the requiring file
                 nested_require(ctx, U, hostile)
+                scenario_requires(ctx, U, hostile)
             ctx.feature('links_done')
             return
         if spec['kind'] == 'names':
@@ -562,6 +622,9 @@ def run_shard(spec, ctx):
 def replay(case, ctx):
     U = make_universe()
     try:
+        if case['kind'] == 'scenario':
+            scenario_requires(ctx, U, case['hostile'])
+            return
         if case['kind'] == 'include':
             s = case['string']
             for ext in ('.p8.png', '.p8', '.lua'):
@@ -581,7 +644,7 @@ def gates(m, tier):
     N = 3 if tier == 'quick' else 4
     if f.get('strings_enumerated', 0) != len(strings(N)):
         missed.append('strings enumerated %d of %d' % (f.get('strings_enumerated', 0), len(strings(N))))
-    for k in ('cart_loaded_from_stream_without_name', 'cart_under_cwd_relative_carts_folder', 'strings_with_tilde', 'nested_require_from_subdirectory', 'main_named_bare', 'main_named_relative', 'cart_named_bare', 'cart_named_relative', 'links_done', 'strings_through_directory_links', 'strings_with_backslash_separators', 'strings_with_undecodable_bytes', 'sequences_done', 'failed_load_before_case', 'failed_build_before_case', 'include_cfg:subdir', 'absolute_paths_done', 'names_done', 'cart_directories_with_special_characters', 'carts_folder_lookalikes', 'main_file_inside_carts_folder_project', 'strings_with_backslash_digit_values', 'hostile', 'real_fs', 'include_cfg:plain', 'include_cfg:carts', 'include_cfg:carts2', 'include_rejected',
+    for k in ('cart_loaded_from_stream_without_name', 'cart_under_cwd_relative_carts_folder', 'strings_with_tilde', 'nested_require_from_subdirectory', 'main_named_bare', 'main_named_relative', 'cart_named_bare', 'cart_named_relative', 'links_done', 'strings_through_directory_links', 'strings_with_backslash_separators', 'strings_with_undecodable_bytes', 'sequences_done', 'failed_load_before_case', 'failed_build_before_case', 'include_cfg:subdir', 'absolute_paths_done', 'names_done', 'cart_directories_with_special_characters', 'carts_folder_lookalikes', 'main_file_inside_carts_folder_project', 'strings_with_backslash_digit_values', 'require_scenario:ancestor_pattern', 'require_scenario:ancestor_pattern_two', 'require_scenario:package_outside_project', 'hostile', 'real_fs', 'include_cfg:plain', 'include_cfg:carts', 'include_cfg:carts2', 'include_rejected',
               'include_loaded', 'require_rejected', 'require_built') + tuple('load_path:' + l for l in LOAD_PATHS):
         if f.get(k, 0) < 1:
             missed.append('%s never seen' % k)
